@@ -19,7 +19,7 @@ LEVEL = "proof"
 PID = "C02"
 
 HEADER = ("From Coq Require Import String NArith ZArith List.\n"
-          "From DS Require Import Model.Str Model.Value Model.VM Model.Ast Model.Denote Model.Compile Corr.Corr02.\n"
+          "From DS Require Import Model.Str Model.PCG Model.Value Model.VM Model.Ast Model.Denote Model.Compile Corr.CorrK2 Corr.Corr02.\n"
           "Import ListNotations.\nOpen Scope string_scope.\nOpen Scope N_scope.\n"
           "Set Printing Width 100000000. Set Printing Depth 100000000.\n")
 
@@ -35,6 +35,8 @@ FINDINGS = {
                                                    "string, `]` `)` `}`) does not separate statements: `true\\n2` stops after `true`",
     "paren-lead-ne-truncated": "an expression in statement / exprRoot position that starts with a parenthesis closed right before `!=` is cut after "
                                "the parenthesis (nestedBoost's look-ahead class lacks `!`): `(1) != 1` returns 1, `x = (1) != 1` stores 1",
+    "index-eq-truncated": "an index closed right before `==` is not parsed (item_getX's `!'='` guard, meant for `a[0] = v`, also fires on `==`): "
+                          "`x=[1]; x[0] == 1` returns the array `[1]` (parse stops after `x`), `y = x[0] == 1` stores the array",
     "logic-and-glued-identifier": "`&&` directly followed by an identifier (or true/false/null) is read as bitwise `&` plus a raw load `&name`: "
                                   "`x=2; 1 &&x` returns 0 (1 & 2), `true &&false` is a type error",
 }
@@ -124,6 +126,167 @@ def nodes(t, acc):
         elif isinstance(x, list):
             for y in x:
                 nodes(y, acc)
+
+
+# ---------------------------------------------------------------- printer (mirror of coq/Model/Ast.v `print`)
+# Coq checks, case by case, that this text IS `print (mk_ws seed) ast` (String.eqb inside Corr02.c02_check), so a
+# divergence of the mirror is reported, never silently used.
+def mk_ws(seed):
+    a = ((seed + 1) * 2654435761) & 1099511627775
+    return lambda i: ((a + (i + 7) * (i + 13) * 40503 + i * 977) >> 6) & 65535
+
+
+BIN_LEVEL = {"&&": 3, "|": 4, "&": 5, "<": 6, "<=": 6, "==": 6, "!=": 6, ">=": 6, ">": 6, "+": 7, "-": 7, "*": 8, "/": 8, "%": 8, "??": 9, "^": 10}
+
+
+def level_of(e):
+    k = e[0]
+    return {"assign": 0, "tern": 1, "or": 2, "neg": 11, "pos": 11}.get(k, BIN_LEVEL[e[1]] if k == "bin" else 12)
+
+
+def esc(b):
+    out = bytearray()
+    for c in b:
+        if c == 92:
+            out += b"\\\\"
+        elif c == 39:
+            out += b"\\'"
+        elif c == 10:
+            out += b"\\n"
+        elif c == 13:
+            out += b"\\r"
+        elif c == 9:
+            out += b"\\t"
+        elif c == 12:
+            out += b"\\f"
+        else:
+            out.append(c)
+    return bytes(out)
+
+
+def etoks(ws, e, lvl, acc):
+    """acc: token list so far (in order); returns the extended list (new object)"""
+    wrap = level_of(e) < lvl or ws(len(acc)) % 7 == 0
+    acc0 = acc + [("LP", b"(")] if wrap else acc
+    k = e[0]
+    if k == "int":
+        body = acc0 + [("Num", str(e[1]).encode())]
+    elif k == "str":
+        body = acc0 + [("Str", b"'" + esc(e[1].encode("utf-8")) + b"'")]
+    elif k in ("null", "true", "false"):
+        body = acc0 + [("Kw", k.encode())]
+    elif k == "var":
+        body = acc0 + [("Id", e[1].encode("utf-8"))]
+    elif k == "assign":
+        body = etoks(ws, e[2], 0, acc0 + [("IdL", e[1].encode("utf-8")), ("Assign", b"=")])
+    elif k in ("neg", "pos"):
+        body = etoks(ws, e[1], 12, acc0 + [("Un", b"-" if k == "neg" else b"+")])
+    elif k == "bin":
+        o = e[1]
+        a1 = etoks(ws, e[2], BIN_LEVEL[o], acc0)
+        if o == "==" and a1[-1][0] == "RBidx":
+            a1 = etoks(ws, e[2], 13, acc0)
+        text = ("**" if ws(len(a1)) % 2 == 0 else "^") if o == "^" else o
+        rl = 10 if o in ("*", "/", "%") else BIN_LEVEL[o] + 1
+        body = etoks(ws, e[3], rl, a1 + [("Op", text.encode())])
+    elif k == "or":
+        body = etoks(ws, e[2], 3, etoks(ws, e[1], 2, acc0) + [("Op", b"||")])
+    elif k == "tern":
+        a1 = etoks(ws, e[1], 2, acc0) + [("Q", b"?")]
+        a2 = etoks(ws, e[2], 2, a1) + [("Colon", b":")]
+        body = etoks(ws, e[3], 2, a2)
+    elif k == "arr":
+        a = acc0 + [("LB", b"[")]
+        for n, x in enumerate(e[1]):
+            a = etoks(ws, x, 0, a if n == 0 else a + [("Comma", b",")])
+        body = a + [("RBarr", b"]")]
+    elif k == "idx":
+        b = e[1]
+        if b[0] in ("var", "arr", "idx"):
+            a1 = etoks(ws, b, 12, acc0)
+        else:
+            a1 = etoks(ws, b, 0, acc0 + [("LP", b"(")]) + [("RP", b")")]
+        body = etoks(ws, e[2], 0, a1 + [("LB", b"[")]) + [("RBidx", b"]")]
+    elif k == "roll":
+        x, y = e[1], e[2]
+        px = etoks(ws, x, 12, acc0) if x[0] == "int" else etoks(ws, x, 0, acc0 + [("LP", b"(")]) + [("RP", b")")]
+        a1 = px + [("D", b"d")]
+        body = etoks(ws, y, 12, a1) if y[0] == "int" else etoks(ws, y, 0, a1 + [("LP", b"(")]) + [("RP", b")")]
+    else:
+        raise ValueError(k)
+    return body + [("RP", b")")] if wrap else body
+
+
+def last_stmt(s):
+    return last_stmt(s[2]) if s[0] == "seq" else s
+
+
+def stoks(ws, s, acc):
+    k = s[0]
+    if k == "nop":
+        return acc
+    if k == "expr":
+        return etoks(ws, s[1], 0, acc)
+    if k == "seq":
+        a1 = stoks(ws, s[1], acc)
+        sep = a1 if (last_stmt(s[1])[0] in ("if", "while") and ws(len(a1)) % 3 == 0) else a1 + [("Semi", b";")]
+        return stoks(ws, s[2], sep)
+    if k == "if":
+        a1 = stoks(ws, s[2], etoks(ws, s[1], 0, acc + [("Kw1", b"if")]) + [("LC", b"{")]) + [("RC", b"}")]
+        e = s[3]
+        if e[0] == "nop":
+            return a1 + [("Else", b"else"), ("LC", b"{"), ("RC", b"}")] if ws(len(a1)) % 4 == 0 else a1
+        if e[0] == "if" and ws(len(a1)) % 2 == 0:
+            return stoks(ws, e, a1 + [("Else", b"else")])
+        return stoks(ws, e, a1 + [("Else", b"else"), ("LC", b"{")]) + [("RC", b"}")]
+    if k == "while":
+        return stoks(ws, s[2], etoks(ws, s[1], 0, acc + [("Kw1", b"while")]) + [("LC", b"{")]) + [("RC", b"}")]
+    if k == "break":
+        return acc + [("Kw", b"break")]
+    if k == "continue":
+        return acc + [("Kw", b"continue")]
+    raise ValueError(k)
+
+
+LEADING_SP = {"Op", "Q", "Colon", "Semi", "LC", "RBidx", "RC"}
+ID_START = {"Id", "IdL", "Kw", "Kw1", "Else"}
+
+
+def gap_of(t1, t2):
+    if t1 == ("Op", b"&&") and t2[0] in ID_START:
+        return "need"
+    if t1[0] == "Kw1":
+        return "need"
+    if t1[0] == "Else" and t2[0] == "Kw1":
+        return "need"
+    if t1[0] == "Id" and t2[0] == "Colon":
+        return "need"
+    if t2[0] == "D" or t1[0] == "D":
+        return "none"
+    if t2[0] in LEADING_SP:
+        return "any"
+    return {"Num": "none", "Id": "space"}.get(t1[0], "any")
+
+
+def blanks(g, k):
+    if g == "none":
+        return b""
+    if g == "space":
+        return [b" ", b"\t", b"  ", b"", b""][k % 5]
+    if g == "any":
+        return [b" ", b"\n", b"\t", b" \n  ", b"\r\n", b" ", b"", b"", b""][k % 9]
+    return [b"\n", b"\t", b"  ", b" \n", b" "][k % 5]
+
+
+def print_prog(seed, s):
+    ws = mk_ws(seed)
+    toks = stoks(ws, s, [])
+    out = bytearray(blanks("any", ws(0) >> 3))
+    for n, t in enumerate(toks):
+        out += t[1]
+        k = ws(n + 1 + 3) >> 3
+        out += blanks(gap_of(t, toks[n + 1]), k) if n + 1 < len(toks) else blanks("any", k)
+    return bytes(out)
 
 
 # ---------------------------------------------------------------- generator
@@ -388,133 +551,143 @@ def gen_cases(r, n):
 
 
 # ---------------------------------------------------------------- Coq side
-def case_term(c, seeds):
+def obs_term(step):
+    """harness step -> Coq `obs` (+ the byte-code term)"""
+    if step is None or step.get("panic") or step.get("fatal"):
+        return "[]", "(OB 3 DNull 0 [])"
+    if not step.get("parse_ok"):
+        return "[]", "(OB 2 DNull 0 [])"
+    code = k2cases.code_terms(step.get("code") or [], [])
+    try:
+        vars_ = "[" + ";".join(f"({cstr(k)},{k2cases.dval_term(v)})" for k, v in zip(step.get("vark") or [], step.get("varv") or [])) + "]"
+        if step.get("ok"):
+            return code, f"(OB 0 {k2cases.dval_term(step.get('val'))} 0 {vars_})"
+        return code, f"(OB 1 DNull {k2cases.error_class(step.get('err') or '')} {vars_})"
+    except k2cases.Inexpressible:
+        return code, "(OB 0 (DOther 99) 0 [])"
+
+
+def case_term(c, seeds, texts_per_seed, rows):
     mn, mx = c["mode"] == -1, c["mode"] == 1
     cfg = f"(CFG2 {k2cases.b(c['div0'])} {k2cases.b(mn)} {k2cases.b(mx)})"
-    return f"(K {cfg} 400 [{';'.join(str(s) for s in seeds)}] [{'; '.join(sterm(p) for p in c['progs'])}])"
+    runs = []
+    for texts, row in zip(texts_per_seed, rows):
+        steps = list(row.get("steps") or [])
+        items = []
+        for i, t in enumerate(texts):
+            st = steps[i] if i < len(steps) else None
+            if row.get("fatal"):
+                st = None
+            code, ob = obs_term(st)
+            items.append(f"({cstr(t)}, {code}, {ob})")
+        runs.append("[" + ";\n    ".join(items) + "]")
+    return (f"(K {cfg} 400 [{';'.join(str(s) for s in seeds)}]\n  [{'; '.join(sterm(p) for p in c['progs'])}]\n  ["
+            + ";\n   ".join(runs) + "])")
 
 
 def cases_v(terms):
     return (HEADER + "Definition cases : list c02_case := [\n" + ";\n".join(terms) + "].\n"
-            "Definition lines := Eval vm_compute in map c02_line cases.\nPrint lines.\n")
+            "Definition res := Eval vm_compute in map c02_check cases.\nPrint res.\n")
 
 
-def unpack(chunks):
-    """inverse of Corr02.pack: chunks of up to 7 bytes, each a base-256 number after a leading 1"""
-    out = bytearray()
-    for n in chunks:
-        b = n.to_bytes((n.bit_length() + 7) // 8, "big")
-        assert b[:1] == b"\x01", b[:4]
-        out += b[1:]
-    return bytes(out)
-
-
-def parse_lines(out):
+def parse_res(out):
     import ast
-    m = re.search(r"lines\s*=\s*(.*?)\n\s*:\s*list", out, re.S)
+    m = re.search(r"res\s*=\s*(.*?)\n\s*:\s*list", out, re.S)
     if not m:
-        raise Broken("coq-output", "cannot find lines in:\n" + out[-2000:])
-    body = m.group(1).replace("%N", "").replace(";", ",").replace("true", "True").replace("false", "False")
-    return ast.literal_eval(" ".join(body.split()))
+        raise Broken("coq-output", "cannot find res in:\n" + out[-2000:])
+    body = " ".join(m.group(1).split())
+    body = body.replace("%N", "").replace(";", ",").replace("true", "True").replace("false", "False").replace("Some", "")
+    return ast.literal_eval(body)
+
+
+def explain_v(terms):
+    return (HEADER + "".join(f"Definition e{i} := Eval vm_compute in c02_explain {t}.\nPrint e{i}.\n" for i, t in enumerate(terms)))
 
 
 def unhex(h):
     return bytes.fromhex(h)
 
 
-def parse_dv(s, pos=0):
-    """-> (python value, next position); python value: int | ('s', bytes) | None | list"""
+def show_dv(s, pos=0):
+    """readable form of Corr02.show_dv text -> (text, next position)"""
     ch = s[pos]
     if ch == "i":
         m = re.match(r"-?\d+", s[pos + 1:])
-        return int(m.group(0)), pos + 1 + m.end()
+        return m.group(0), pos + 1 + m.end()
     if ch == "s":
         m = re.match(r"[0-9a-f]*", s[pos + 1:])
-        return ("s", unhex(m.group(0))), pos + 1 + m.end()
+        return repr(unhex(m.group(0)).decode("utf-8", "replace")), pos + 1 + m.end()
     if ch == "n":
-        return None, pos + 1
+        return "null", pos + 1
     if ch == "a":
         pos += 2
         items = []
         while s[pos] != ")":
-            v, pos = parse_dv(s, pos)
+            v, pos = show_dv(s, pos)
             items.append(v)
-            assert s[pos] == ","
             pos += 1
-        return items, pos + 1
-    raise ValueError(s[pos:pos + 20])
+        return "[" + ", ".join(items) + "]", pos + 1
+    return "?", len(s)
 
 
-def parse_env(s):
-    env = {}
-    pos = 0
+def show_env(s):
+    env, pos = {}, 0
     while pos < len(s):
         eq = s.index("=", pos)
-        name = unhex(s[pos:eq]).decode("utf-8")
-        v, pos = parse_dv(s, eq + 1)
-        assert s[pos] == ","
-        pos += 1
+        name = unhex(s[pos:eq]).decode("utf-8", "replace")
+        v, pos = show_dv(s, eq + 1)
         env[name] = v
+        pos += 1
     return env
 
 
-def parse_outcome(o):
+def show_outcome(o):
     if o == "F":
-        return {"kind": "fuel"}
+        return "the definition runs out of loop fuel"
     if o.startswith("U:"):
-        return {"kind": "unsup", "why": unhex(o[2:]).decode()}
+        return "outside the definition: " + unhex(o[2:]).decode()
     k, a, env = o.split(":", 2)
     if k == "V":
-        v, _ = parse_dv(a)
-        return {"kind": "val", "val": v, "env": parse_env(env)}
-    return {"kind": "err", "cls": int(a), "env": parse_env(env)}
+        return {"value": show_dv(a)[0], "variables": show_env(env)}
+    return {"error_class": int(a), "variables": show_env(env)}
 
 
-def parse_line(line):
-    head, texts = line
-    outs, codes = unpack(head).decode("ascii").split("|")
-    outcomes = [parse_outcome(o) for o in outs.split(";")] if outs else []
-    codes = [[tuple(i.split("#", 1)) for i in c.split(",") if i] for c in codes.split("/")]
-    per_seed = [[(bool(f), unpack(t)) for f, t in st] for st in texts]
-    return outcomes, codes, per_seed
+def parse_explain(out):
+    res = []
+    for m in re.finditer(r'e\d+\s*=\s*"([^"]*)"', out):
+        outs, codes = m.group(1).split("|")
+        res.append(([show_outcome(o) for o in outs.split(";")] if outs else [],
+                    [" ; ".join(i.replace("#", " ").strip() for i in c.split(",") if i) for c in codes.split("/")]))
+    return res
 
 
 def go_value(d):
-    """harness vdump -> same python shape as parse_dv"""
     if d is None:
-        return ("?", "nil")
+        return "nil"
     t = d.get("t")
     if t == 0:
-        return int(d["i"])
+        return d["i"]
     if t == 2:
-        return ("s", (d.get("s") or "").encode("utf-8", "surrogateescape"))
+        return repr(d.get("s") or "")
     if t == 4:
-        return None
+        return "null"
     if t == 6 and not d.get("cyc"):
-        return [go_value(x) for x in d.get("l") or []]
-    return ("?", json.dumps(d, ensure_ascii=False))
+        return "[" + ", ".join(go_value(x) for x in d.get("l") or []) + "]"
+    return json.dumps(d, ensure_ascii=False)
 
 
 def go_code(code):
     out = []
     for op in code:
-        name = {"&": "bitand", "|": "bitor"}.get(op.get("name"), op.get("name") or "?")
-        if op.get("i") is not None:
-            arg = str(int(op["i"]))
-        elif op.get("s") is not None:
-            arg = "x" + op["s"].encode("utf-8", "surrogateescape").hex()
-        else:
-            arg = ""
-        out.append((name, arg))
-    return out
+        name = op.get("name") or "?"
+        arg = str(op["i"]) if op.get("i") is not None else ("x" + op["s"].encode("utf-8", "surrogateescape").hex() if op.get("s") is not None else "")
+        out.append((name + " " + arg).strip())
+    return " ; ".join(out)
 
 
-def show(v):
-    if isinstance(v, tuple) and v and v[0] == "s":
-        return repr(v[1].decode("utf-8", "replace"))
-    if isinstance(v, list):
-        return "[" + ", ".join(show(x) for x in v) + "]"
-    return "null" if v is None else str(v)
+KIND = {1: "internal: the Python mirror of `print` differs from Model/Ast.v print", 2: "the real parser rejects a text printed from a well-formed AST",
+        3: "the real code panics / crashes / hangs on a program the definition evaluates", 4: "K4: the parser's byte-code differs from the reference compiler",
+        5: "K3: value vs error", 6: "K3: different value", 7: "K3: different error class", 8: "K3: different variables after the program"}
 
 
 # ---------------------------------------------------------------- own Coq files
@@ -539,164 +712,105 @@ def build_own_coq():
             newest = max(newest, os.path.getmtime(vo))
 
 
-# ---------------------------------------------------------------- comparison
-def compare_case(c, line, rows_per_seed, stats):
-    """-> list of problems (dicts); rows_per_seed[j] = harness row of the history printed under seed j"""
-    outcomes, codes, per_seed = line
-    problems = []
-    for j, (texts, row) in enumerate(zip(per_seed, rows_per_seed)):
-        if row is None:
-            continue
-        flagged = any(f for f, _ in texts)
-        srcs = [t.decode("utf-8") for _, t in texts]
-        base = {"config": {"IgnoreDiv0": c["div0"], "mode": c["mode"]}, "sources_run_in_order_on_one_vm": srcs}
-        if row.get("fatal"):
-            problems.append(dict(base, what="the real code hangs / crashes on a program the definition evaluates", fatal=row["fatal"], flagged=flagged))
-            continue
-        steps = row.get("steps") or []
-        for i, exp in enumerate(outcomes):
-            if i >= len(steps):
-                problems.append(dict(base, what="history cut short by the harness", step=i, flagged=flagged))
-                break
-            s = steps[i]
-            stats["steps"] += 1
-            here = dict(base, step=i, source=srcs[i], flagged=flagged)
-            if s.get("panic"):
-                problems.append(dict(here, what="the real code panics", panic=s["panic"]))
-                break
-            if not s.get("parse_ok"):
-                problems.append(dict(here, what="the real parser rejects a text printed from a well-formed AST", parse_error=(s.get("perr") or "")[:300]))
-                break
-            # K4: byte-code
-            got = go_code(s.get("code") or [])
-            want = codes[i]
-            stats["k4"] += 1
-            if [(n, "" if n == "mark.detail" else a) for n, a in got] != [(n, "" if n == "mark.detail" else a) for n, a in want]:
-                k = next((q for q, (x, y) in enumerate(zip(got, want)) if x != y), min(len(got), len(want)))
-                problems.append(dict(here, what="K4: the parser's byte-code differs from the reference compiler", first_difference_at=k,
-                                     parser=" ; ".join(f"{n} {a}" for n, a in got[max(0, k - 3):k + 4]),
-                                     reference=" ; ".join(f"{n} {a}" for n, a in want[max(0, k - 3):k + 4])))
-                break
-            # K3: observable
-            if exp["kind"] == "val":
-                if not s.get("ok"):
-                    problems.append(dict(here, what="K3: the definition gives a value, the implementation an error", expected=show(exp["val"]),
-                                         error=s.get("err")))
-                    break
-                gv = go_value(s.get("val"))
-                if gv != exp["val"]:
-                    problems.append(dict(here, what="K3: different value", expected=show(exp["val"]), got=show(gv)))
-                    break
-            else:
-                if s.get("ok"):
-                    problems.append(dict(here, what="K3: the definition gives an error, the implementation a value", expected_error_class=exp["cls"],
-                                         got=show(go_value(s.get("val")))))
-                    break
-                cls = k2cases.error_class(s.get("err") or "")
-                if cls and cls != exp["cls"]:
-                    problems.append(dict(here, what="K3: different error class", expected_error_class=exp["cls"], got_class=cls, error=s.get("err")))
-                    break
-            gvars = {k: go_value(v) for k, v in zip(s.get("vark") or [], s.get("varv") or [])}
-            if gvars != exp["env"]:
-                problems.append(dict(here, what="K3: different variables after the program",
-                                     expected={k: show(v) for k, v in exp["env"].items()}, got={k: show(v) for k, v in gvars.items()}))
-                break
-    return problems
-
-
+# ---------------------------------------------------------------- run
 KNOWN_REPLAYS = [
     # key, sources, expected by the definition (show() text of the last value), what the defect yields
     ("while-body-stack-leak", ["i=0; while i<2000 {i=i+1}; i"], "2000"),
     ("newline-after-bracket-value-not-a-separator", ["true\n2"], "2"),
     ("paren-lead-ne-truncated", ["(1) != 1"], "0"),
     ("logic-and-glued-identifier", ["x=2; 1 &&x"], "2"),
+    ("index-eq-truncated", ["x=[1]; x[0] == 1"], "1"),
 ]
+
+
+def evaluate(cases, seeds_of, tag="c02", shard=200):
+    """-> (verdicts per case [(good, fail|None) per seed], texts per case, rows per case)"""
+    inputs, where, texts_of = [], [], []
+    for ci, (c, seeds) in enumerate(zip(cases, seeds_of)):
+        per_seed = []
+        for j, sd in enumerate(seeds):
+            texts = [print_prog(sd + 7919 * i, p) for i, p in enumerate(c["progs"])]
+            per_seed.append(texts)
+            inputs.append(k2cases.mk_input(texts[-1], hist=texts[:-1], div0=c["div0"], mode=c["mode"]))
+            where.append((ci, j))
+        texts_of.append(per_seed)
+    rows = k2cases.go_run(inputs)
+    rows_of = [[None] * len(s) for s in seeds_of]
+    for (ci, j), row in zip(where, rows):
+        rows_of[ci][j] = row
+    terms = [case_term(c, sd, tx, rw) for c, sd, tx, rw in zip(cases, seeds_of, texts_of, rows_of)]
+    ks = list(range(0, len(terms), shard))
+    outs = common.coq_eval_many([(f"{tag}_{k}", cases_v(terms[k:k + shard])) for k in ks], workers=12)
+    verdicts = []
+    for out in outs:
+        verdicts += parse_res(out)
+    if len(verdicts) != len(cases):
+        raise Broken("coq-output", f"{len(verdicts)} verdicts for {len(cases)} cases")
+    return verdicts, texts_of, rows_of, terms
 
 
 def run(res, tier, seed):
     common.build_harness()
     build_own_coq()
     r = random.Random(seed * 7919 + 2)
-    n = 700 if tier == "quick" else 9000
+    n = 900 if tier == "quick" else 12000
     nseeds = 3 if tier == "quick" else 4
     cases = gen_cases(r, n)
     seeds_of = [[r.randrange(1, 1 << 30) for _ in range(nseeds)] for _ in cases]
-    seeds_of = [[0] + s[1:] if c["kind"] == "matrix" else s for c, s in zip(cases, seeds_of)]
+    verdicts, texts_of, rows_of, terms = evaluate(cases, seeds_of)
 
-    # ---- Coq: print + compile + denote
-    shard = 250
-    ks = list(range(0, len(cases), shard))
-    outs = common.coq_eval_many([(f"c02_{k}", cases_v([case_term(c, s) for c, s in zip(cases[k:k + shard], seeds_of[k:k + shard])])) for k in ks],
-                                workers=12)
-    lines = []
-    for out in outs:
-        lines += parse_lines(out)
-    if len(lines) != len(cases):
-        raise Broken("coq-output", f"{len(lines)} lines for {len(cases)} cases")
-    parsed = [parse_line(l) for l in lines]
-
-    # ---- Go: run the printed texts
-    inputs, where = [], []
-    skipped = {"fuel": 0, "unsup": 0}
-    hist_len, ctor, kinds, outcome_kinds = {}, {}, {}, {}
-    for ci, (c, (outcomes, codes, per_seed)) in enumerate(zip(cases, parsed)):
+    hist_len, ctor, kinds, fail_kinds = {}, {}, {}, {}
+    steps_ok = cut = 0
+    failures, attributed = [], 0
+    for ci, (c, vs) in enumerate(zip(cases, verdicts)):
         kinds[c["kind"]] = kinds.get(c["kind"], 0) + 1
         hist_len[len(c["progs"])] = hist_len.get(len(c["progs"]), 0) + 1
         for p in c["progs"]:
             nodes(p, ctor)
-        for o in outcomes:
-            outcome_kinds[o["kind"]] = outcome_kinds.get(o["kind"], 0) + 1
-        usable = [o for o in outcomes if o["kind"] in ("val", "err")]
-        if len(usable) < len(outcomes):
-            skipped[[o for o in outcomes if o["kind"] not in ("val", "err")][0]["kind"]] += 1
-        parsed[ci] = (usable, codes, per_seed)
-        if not usable:
-            continue
-        for j, texts in enumerate(per_seed):
-            srcs = [t for _, t in texts][:len(usable)]
-            inputs.append(k2cases.mk_input(srcs[-1], hist=srcs[:-1], div0=c["div0"], mode=c["mode"]))
-            where.append((ci, j))
-    rows = k2cases.go_run(inputs)
-    per_case = {}
-    for (ci, j), row in zip(where, rows):
-        per_case.setdefault(ci, {})[j] = row
-
-    stats = {"steps": 0, "k4": 0}
-    problems, attributed = [], {"paren-lead-ne-truncated": 0}
-    for ci, c in enumerate(cases):
-        if ci not in per_case:
-            continue
-        rps = [per_case[ci].get(j) for j in range(len(parsed[ci][2]))]
-        ps = compare_case(c, parsed[ci], rps, stats)
-        for p in ps:
-            if p.get("flagged") and not p.get("fatal"):
-                attributed["paren-lead-ne-truncated"] += 1
+        good_any = False
+        for j, (good, fail) in enumerate(vs):
+            steps_ok += good
+            good_any = good_any or good > 0
+            if fail is None:
+                continue
+            step, kind, flagged = fail
+            if kind == 9:
+                cut += 1
+                continue
+            fail_kinds[kind] = fail_kinds.get(kind, 0) + 1
+            if flagged and kind != 1:
+                attributed += 1
             else:
-                problems.append(p)
-        txt = parsed[ci][2][0][-1][1] if parsed[ci][2] and parsed[ci][2][0] else b""
-        res.count(txt.decode("utf-8", "replace") + json.dumps([c["div0"], c["mode"]]), nontrivial=c["kind"] != "matrix" or True)
-    if parsed and parsed[-1][2]:
-        ex = parsed[-1]
-        res.sample({"sources": [t.decode("utf-8", "replace") for _, t in ex[2][0]], "expected": [o.get("kind") for o in ex[0]]})
+                failures.append((ci, j, step, kind))
+        res.count(texts_of[ci][0][-1].decode("utf-8", "replace") + json.dumps([c["div0"], c["mode"]]), nontrivial=good_any)
+    for ci in (len(cases) - 1, len(cases) // 2):
+        row = rows_of[ci][0]
+        st = (row.get("steps") or [{}])[-1]
+        res.sample({"sources": [t.decode("utf-8", "replace") for t in texts_of[ci][0]],
+                    "implementation": go_value(st.get("val")) if st.get("ok") else "error: " + str(st.get("err"))})
 
-    res.cov["rule"] = ("generated ASTs of the core fragment (Model/Ast.v): Coq prints each program under several whitespace / redundant-parenthesis "
-                       "choices, compiles it (reference compiler) and evaluates the definitional semantics over the whole history; the real parser + "
-                       "VM run exactly those texts on one VM per history; K4 compares the byte-code instruction by instruction (detail-span operands "
-                       "ignored: they depend on the printed text), K3 compares value / error / error class / variables after every program; "
-                       "distinct = distinct (last program text, configuration); every case counts as non-trivial (each is a full parse + run)")
+    res.cov["rule"] = ("generated ASTs of the core fragment (Model/Ast.v), each history printed under several whitespace / redundant-parenthesis "
+                       "choices and run by the real parser + VM on one VM per history; Coq (Corr02.c02_check) checks per program: the text is "
+                       "`print ws ast`; K4: the parser's byte-code equals `compile ast` instruction by instruction (detail-span operands ignored: "
+                       "they depend on the printed text); K3: value / error / error class / variables equal `denote_history`; "
+                       "distinct = distinct (last program text under the first seed, configuration); non-trivial = at least one program of the "
+                       "history was compared successfully")
     res.cov["input_distribution"] = {
         "cases": len(cases), "by_kind": kinds, "history_length": hist_len, "whitespace_choices_per_case": nseeds,
-        "texts_run_by_go": len(inputs), "program_steps_compared": stats["steps"], "bytecode_comparisons": stats["k4"],
-        "definition_outcomes": outcome_kinds, "cases_cut_by_model_limits": skipped, "constructors": dict(sorted(ctor.items())),
-        "boundary_ints": INTS, "configurations": "IgnoreDiv0 30%, dice mode min/max 50% (dice terms only then)",
+        "histories_run_by_go": sum(len(s) for s in seeds_of), "program_steps_agreeing": steps_ok,
+        "histories_cut_where_the_definition_stops(fuel/pow-range/random-dice)": cut, "constructors": dict(sorted(ctor.items())),
+        "boundary_ints": INTS, "configurations": "IgnoreDiv0 30%, dice mode min/max 50% of generated cases (dice terms only then)",
+        "matrix": "every binary operator x 13 operand values squared, unary / || / ternary / if / index per operand value",
     }
-    res.cov["correspondence"] = {"K3_K4_disagreements": len(problems), "attributed_to_known_shape": attributed}
+    res.cov["correspondence"] = {"disagreements": len(failures), "by_kind_incl_attributed": {KIND.get(k, k): v for k, v in fail_kinds.items()},
+                                 "attributed_to_paren-lead-ne-truncated": attributed}
     res.cov["trusted_base"] += [
         "Model/Denote.v is written from docs/GUIDE.md + roll.peg's precedence (the oracle); Model/Ast.v `print` decides which texts count as "
         "'legal whitespace / parenthesisation' (a sound subset of what roll.peg accepts: a text the real parser rejects is reported)",
         "Model/VM.v (validated by K2) is the machine the compiler-correctness theorem talks about; Model/Compile.v is tied to the real parser by K4",
         "capacity limits (1000-slot operand stack, 20 nested blocks, op budget) are outside the definition: generated programs stay far below them; "
         "the theorem carries them as the explicit hypothesis `fits`",
+        "lib/c02.py mirrors `print` to produce the texts; Coq re-derives every text (String.eqb against Model/Ast.v print) before comparing",
     ]
 
     # ---- known findings: deterministic replays
@@ -704,28 +818,48 @@ def run(res, tier, seed):
     rep_rows = k2cases.go_run([k2cases.mk_input(srcs[-1], hist=srcs[:-1]) for _, srcs, _ in KNOWN_REPLAYS])
     unregistered = []
     for (key, srcs, want), row in zip(KNOWN_REPLAYS, rep_rows):
-        s = (row.get("steps") or [{}])[-1]
-        got = show(go_value(s.get("val"))) if s.get("ok") else "error: " + (s.get("err") or s.get("perr") or row.get("fatal") or "?")
+        st = (row.get("steps") or [{}])[-1]
+        got = go_value(st.get("val")) if st.get("ok") else "error: " + str(st.get("err") or st.get("perr") or row.get("fatal") or "?")
         if got != want:
             what = registered[key]["what"] if key in registered else FINDINGS[key]
             res.known(f"key={key} input={json.dumps(srcs, ensure_ascii=False)} documented={want} implementation={got} :: {what}")
             if key not in registered:
                 unregistered.append(key)
-    if attributed["paren-lead-ne-truncated"]:
-        res.known(f"key=paren-lead-ne-truncated generated programs with a `(...) !=` at the start of an expression: "
-                  f"{attributed['paren-lead-ne-truncated']} disagreements attributed")
+    if attributed:
+        res.known(f"key=paren-lead-ne-truncated generated histories containing a `(...) !=` at the start of an expression whose comparison "
+                  f"fails for that reason: {attributed}")
     res.cov["known_keys_not_yet_in_known_findings_json"] = unregistered
 
     # ---- proofs
     info = common.check_property_file(PID)
     res.proof(info, "cd coq && make && coqc -Q . DS Properties/C02.v")
     res.assumptions += [
-        "C02_compile_correct_partial covers the constructors listed in Properties/C02.v (`core_expr` / `core_stmt`); the full statement is kept as "
-        "C02_compile_correct_statement; outside the induction the tie is K3 only",
+        "C02_compile_correct_partial covers the constructors listed in Properties/C02.v; the full statement is kept as "
+        "C02_compile_correct_statement (refuted as it stands by the while-body-stack-leak); outside the induction the tie is K3/K4 only",
     ]
 
-    for p in problems[:5]:
-        res.violation(dict(p, replay="run the sources in order on one VM created with the given configuration (harness k2)"))
+    # ---- report disagreements
+    if failures:
+        sel = failures[:5]
+        outs = common.coq_eval("c02_explain", explain_v([terms[ci] for ci, _, _, _ in sel]))
+        expl = parse_explain(outs)
+        for (ci, j, step, kind), (exp_out, ref_code) in zip(sel, expl):
+            c = cases[ci]
+            row = rows_of[ci][j]
+            st = (row.get("steps") or [])
+            st = st[step] if step < len(st) else {}
+            got = {"parse_error": (st.get("perr") or "")[:300]} if not st.get("parse_ok") else \
+                  {"value": go_value(st.get("val"))} if st.get("ok") else {"error": st.get("err"), "panic": st.get("panic")}
+            got["variables"] = {k: go_value(v) for k, v in zip(st.get("vark") or [], st.get("varv") or [])}
+            payload = {"what": KIND.get(kind, str(kind)), "config": {"IgnoreDiv0": c["div0"], "mode": c["mode"]},
+                       "sources_run_in_order_on_one_vm": [t.decode("utf-8", "replace") for t in texts_of[ci][j]],
+                       "failing_step": step, "definition": exp_out[step] if step < len(exp_out) else None, "implementation": got,
+                       "fatal": row.get("fatal"),
+                       "replay": "run the sources in order on one VM created with the given configuration (./check C02 --replay <this file>)"}
+            if kind == 4:
+                payload["parser_bytecode"] = go_code(st.get("code") or [])
+                payload["reference_bytecode"] = ref_code[step] if step < len(ref_code) else None
+            res.violation(payload, no_input=(kind == 1))
 
 
 def replay(path):
